@@ -249,12 +249,14 @@ def analyse(obs: Obs, prog):
         obs.add(props, "WEIGHT-UPD", inst + "/weight", "weight" in lay and wt == mk_proj(ys, lay["weight"]), derived=wt, expected="the handler's accumulated weight (sum over sites)", where=w)
         obs.add(props | {"C22", "C01"}, "TRACE-CHOICES", inst + "/subtraces", "traces" in lay and f.get("subtraces") == mk_proj(ys, lay["traces"]), derived=f.get("subtraces"), expected="the handler's recorded traces", where=w)
         # retdiff normalisation (sibling agreement)
-        chkd = ("call", ("attr", G("genjax._src.core.compiler.interpreters.incremental.Diff"), "static_check_tree_diff"), (inc,), ())
-        nc = ("call", ("attr", G("genjax._src.core.compiler.interpreters.incremental.Diff"), "no_change"), (inc,), ())
-        normed = rd == ("phi", ("un", "not", chkd), nc, inc)
-        norm_forms[meth] = normed
+        D_ = G("genjax._src.core.compiler.interpreters.incremental.Diff")
+        chkd = ("call", ("attr", D_, "static_check_tree_diff"), (inc,), ())
+        keep = ("call", ("attr", D_, "tree_diff"), (("call", ("attr", D_, "tree_primal"), (inc,), ()), ("call", ("attr", D_, "tree_tangent"), (inc,), ())), ())
+        normed = rd == ("phi", ("un", "not", chkd), keep, inc)
+        overwrites = is_t(rd, "phi") and is_call(rd[2], "no_change")
         obs.add(props | {"C08"}, "SIBLING-NORMALISE", inst + "/retdiff", normed, construct="retval diffs normalised before they reach the Retdiff-annotated return slot",
-                derived=rd, expected="retval_diffs if it is a tree of Diffs else Diff.no_change(retval_diffs)  (a constant return value is not a Diff; beartype rejects it)", where=w)
+                derived=rd, expected="retval_diffs if it is a tree of Diffs else Diff.tree_diff(tree_primal(rd), tree_tangent(rd))  (constant leaves become NoChange, Diff leaves keep their tags; "
+                "Diff.no_change(rd) would overwrite a genuine UnknownChange; no normalisation makes beartype reject a constant return value)", where=w)
         # backward request
         bfld = "bwd_constraints" if kind == "update" else "bwd_requests"
         tkeys = call0(mk_proj(ys, lay.get("traces", 99)), "keys")
